@@ -129,6 +129,8 @@ class Build:
         self.nid = 0
         self.last_writer = {}       # (t, i) -> (origin, round, mode) of the last update
         self.rmw = []               # (round, target, element, old value, [(origin, call id, addend)])
+        self.races = []             # atomic races: dict(ri, t, i, old, fam, seqs=[(origin, [op...])]): outcome judged by linearizability
+        self.raced = {}             # (target, element) -> index in self.races: the model no longer knows the value of that element
         self.cas_taint = set()      # (round, target, element): a successful Compare_and_swap is followed by another call there
         self.nbulk = case.get("bulk", 0)
         # bulk area after the W elements: described by the seed of its pattern (never by its elements)
@@ -154,7 +156,7 @@ class Build:
         mode = rd["mode"]
         passive = mode != "fence"
         self.labels.add("mode:" + mode)
-        free = [[True] * W for _ in range(np_)]
+        free = [[(t_, j_) not in self.raced for j_ in range(W)] for t_ in range(np_)]   # raced elements are left alone afterwards
         seqs = [dict() for _ in range(np_)]          # origin -> {target: [list of plan sequences]}
         results = {r: {} for r in range(np_)}
         newmem = [list(m) for m in self.mem]
@@ -212,7 +214,7 @@ class Build:
                 kind = "put"
             if kind == "rmw" and mode != "lock":
                 kind = "accmulti"
-            c = alloc(t, i, 1 if kind == "rmw" else pl.get("c", 1))
+            c = alloc(t, i, 1 if kind in ("rmw", "race") else pl.get("c", 1))
             if c == 0:
                 continue
             origins = [x % np_ for x in pl.get("o", [0])] or [0]
@@ -291,6 +293,81 @@ class Build:
                 seqs[o0].setdefault(t, []).append(s)
                 newmem[t][i:i + c] = cur
                 wrote(o0, t, i, c)
+            elif kind == "race":
+                # >= 2 origins issue ATOMIC read-modify-write calls on ONE element in the same epoch.  The outcome is not unique: it must
+                # be explained by SOME sequential order of the calls that respects each origin's own order (linearizability).  Within what
+                # MPI allows concurrently by default (accumulate_ops = same_op_no_op): either Compare_and_swap + NO_OP reads, or ONE
+                # operation X (Accumulate / Get_accumulate / Fetch_and_op) + NO_OP reads.
+                os_ = list(dict.fromkeys(origins))
+                if len(os_) < 2:
+                    os_.append((os_[0] + 1) % np_)
+                remote = [o for o in os_ if o != t]
+                if len(remote) >= 2:
+                    os_ = remote          # (a target operating on itself completes at once: it never overlaps with the others)
+                os_ = os_[:4]
+                fam = pl.get("fam", "cas")
+                opx = pl.get("op", "SUM")
+                if num.signed and opx == "PROD":
+                    opx = "SUM"
+                rops = pl.get("rops") or [[{}]]
+                delays = pl.get("delays") or [0]
+                race = dict(ri=ri, t=t, i=i, old=old[0], fam=fam if fam == "cas" else opx, seqs=[], mode=mode)
+                newvals = []
+                kinds_ = set()
+                for k_, o in enumerate(os_):
+                    ops_ = []
+                    s = []
+                    d_ = [0, 1e-6, 2e-5, 3e-4][delays[k_ % len(delays)] % 4]
+                    if d_:
+                        s.append({"k": "sleep", "d": d_})
+                    for j_, a in enumerate((rops[k_ % len(rops)] or [{}])[:2]):
+                        n = newid()
+                        f = a.get("f", 0) % 4
+                        if f == 3 or (fam != "cas" and a.get("noop")):       # an atomic read
+                            if a.get("ga"):
+                                s.append({"k": "getacc", "id": n, "data": num.hex([0]), "count": 1, "t": t, "disp": self.disp(i), "mop": "NO_OP"})
+                            else:
+                                s.append({"k": "fop", "id": n, "data": num.hex([0]), "t": t, "disp": self.disp(i), "mop": "NO_OP"})
+                            ops_.append(dict(f="read", id=n))
+                            kinds_.add("read")
+                        elif fam == "cas":
+                            new = num.norm(old[0] + 1 + k_ + 8 * j_ + 32 * (pl.get("v", 0) % 4)) if not num.signed else (old[0] + 1 + k_ + 8 * j_)
+                            sel = a.get("cmp", 0) % 4
+                            cmpv = old[0] if sel in (0, 1) or not newvals else (newvals[-1] if sel == 2 else num.norm(old[0] + 1 + 4 * len(os_) + 8))
+                            newvals.append(new)
+                            s.append({"k": "cas", "id": n, "data": num.hex([new]), "cmp": num.hex([cmpv]), "t": t, "disp": self.disp(i)})
+                            ops_.append(dict(f="cas", id=n, v=new, cmp=cmpv))
+                            kinds_.add("cas")
+                        else:
+                            v = num.value(pl.get("v", 0) + 7 * k_ + 3 * j_)
+                            if f == 0:
+                                s.append({"k": "fop", "id": n, "data": num.hex([v]), "t": t, "disp": self.disp(i), "mop": opx})
+                                ops_.append(dict(f="fetch", id=n, v=v, op=opx))
+                                kinds_.add("fop")
+                            elif f == 1:
+                                s.append({"k": "getacc", "id": n, "data": num.hex([v]), "count": 1, "t": t, "disp": self.disp(i), "mop": opx})
+                                ops_.append(dict(f="fetch", id=n, v=v, op=opx))
+                                kinds_.add("getacc")
+                            else:
+                                s.append({"k": "acc", "id": n, "data": num.hex([v]), "t": t, "disp": self.disp(i), "mop": opx})
+                                ops_.append(dict(f="acc", id=n, v=v, op=opx))
+                                kinds_.add("acc")
+                    seqs[o].setdefault(t, []).append(s)
+                    race["seqs"].append((o, ops_))
+                self.raced[(t, i)] = len(self.races)
+                self.races.append(race)
+                newmem[t][i] = None
+                self.labels.add("atomic-race:" + ("cas" if kinds_ == {"cas"} else "mixed" if len(kinds_) > 1 else
+                                                 ("same-op" if fam != "cas" else "read")))
+                self.labels.add("atomic-race:origins=%d" % len(os_))
+                if mode == "lockshared":
+                    self.labels.add("atomic-race:shared-lock")
+                elif mode == "lockall":
+                    self.labels.add("atomic-race:lock_all")
+                else:
+                    self.labels.add("atomic-race:" + mode)
+                if mode != "lock":
+                    self.nontrivial = True
             elif kind == "rmw":
                 # read-modify-write by several origins, each inside its own EXCLUSIVE epoch: Get, flush, Put(fetched + add).  The final value
                 # and the set of fetched values are those of SOME serial order of the epochs: this is what the exclusive lock guarantees
@@ -461,6 +538,62 @@ def judge(b, res, oc, E):
             oc.bad("exclusive-lock:not-atomic", "round %d (lock): the origins %s each did lock(EXCLUSIVE, %d); Get(element %d); flush; Put(fetched + add); unlock with "
                    "addends %s; the element held %s; they fetched %s: no serial order of the epochs explains these values%s"
                    % (ri, [o for o, _, _ in adds], t, i, [v for _, _, v in adds], old, [got[n] for _, n, _ in adds], describe(b, ri)))
+    # atomic races: some sequential order of the calls (respecting each origin's order) must explain every fetched value and the
+    # final content of the element
+    finals = {}
+    for x, race in enumerate(b.races):
+        fetched = {}
+        for idx, exp, ri2 in b.expect_res:
+            if ri2 < race["ri"]:
+                continue
+            for o, ops_ in race["seqs"]:
+                for a in ops_:
+                    ent = (res.get(o, idx) or {}).get("res", {}).get(str(a["id"]))
+                    if ent is not None and ent[0] is not None and a["id"] not in fetched:
+                        fetched[a["id"]] = num.unhex(ent[0])[0]
+        final = None
+        for idx, want, ri2, wantbulk in b.expect_mem:
+            if ri2 >= race["ri"]:
+                rec = res.get(race["t"], idx)
+                if rec is not None and "hex" in rec:
+                    final = num.unhex(rec["hex"])[race["i"]]
+                break
+        if final is None or any(a["f"] != "acc" and a["id"] not in fetched for _, ops_ in race["seqs"] for a in ops_):
+            oc.bad("not-executed", "round %d: missing observations of the atomic race on element %d of rank %d" % (race["ri"], race["i"], race["t"]))
+            continue
+        finals[x] = final
+        seqs_ = [ops_ for _, ops_ in race["seqs"]]
+        seen = set()
+
+        def search(pos, cur):
+            if (pos, cur) in seen:
+                return False
+            seen.add((pos, cur))
+            if all(p_ == len(q) for p_, q in zip(pos, seqs_)):
+                return cur == final
+            for k_, q in enumerate(seqs_):
+                if pos[k_] == len(q):
+                    continue
+                a = q[pos[k_]]
+                if a["f"] != "acc" and fetched[a["id"]] != cur:
+                    continue
+                nxt = (a["v"] if cur == a["cmp"] else cur) if a["f"] == "cas" else cur if a["f"] == "read" else num.apply(a["op"], cur, a["v"])
+                if search(pos[:k_] + (pos[k_] + 1,) + pos[k_ + 1:], nxt):
+                    return True
+            return False
+
+        if not search(tuple(0 for _ in seqs_), race["old"]):
+            def show(a):
+                got_ = "" if a["f"] == "acc" else " -> %s" % fetched[a["id"]]
+                return ("CAS(compare %s, new %s)" % (a["cmp"], a["v"]) if a["f"] == "cas" else "atomic read" if a["f"] == "read" else
+                        "%s(%s, %s)" % ("Accumulate" if a["f"] == "acc" else "Fetch_and_op/Get_accumulate", a["op"], a["v"])) + got_
+            winners = [o for o, ops_ in race["seqs"] for a in ops_ if a["f"] == "cas" and a["cmp"] == race["old"] and fetched[a["id"]] == race["old"]]
+            oc.bad("atomic-race:not-linearizable:%s" % race["fam"],
+                   "round %d (%s): element %d of rank %d held %s; concurrent atomic calls: %s; final content %s: NO sequential order of these calls "
+                   "explains the fetched values and the final content%s%s"
+                   % (race["ri"], race["mode"], race["i"], race["t"], race["old"],
+                      "; ".join("rank %d: %s" % (o, ", ".join(show(a) for a in ops_)) for o, ops_ in race["seqs"]), final,
+                      (" (%d origins saw the old value and 'won')" % len(winners)) if len(winners) > 1 else "", describe(b, race["ri"])))
     # window memories
     for idx, want, ri, wantbulk in b.expect_mem:
         for r in range(b.np):
@@ -480,13 +613,15 @@ def judge(b, res, oc, E):
             if not rec["guards"]:
                 oc.bad("buffer-overrun", "rank %d: bytes around the window memory were overwritten in round %d" % (r, ri))
             got = num.unhex(rec["hex"])
-            if got != want[r]:
-                diff = [j for j in range(len(want[r])) if j >= len(got) or got[j] != want[r][j]]
+            # raced elements: the model does not know them; they must keep the value read right after the race
+            want_r = [(finals.get(b.raced[(r, j)], g) if w is None else w) for j, (w, g) in enumerate(zip(want[r], got + [None] * len(want[r])))]
+            if got != want_r:
+                diff = [j for j in range(len(want_r)) if j >= len(got) or got[j] != want_r[j]]
                 tainted = all(any((r2, r, j) in b.cas_taint for r2 in range(ri + 1)) for j in diff)
                 rmw_ = all(any(r2 <= ri and (t2, i2) == (r, j) for r2, t2, i2, _, _ in b.rmw) for j in diff)
                 oc.bad("cas-swap-not-ordered" if tainted else "exclusive-lock:not-atomic" if rmw_ else "window:%s" % b.case["rounds"][ri]["mode"],
                        "after round %d (%s) the window of rank %d holds %s, expected %s (elements %s differ)%s"
-                       % (ri, b.case["rounds"][ri]["mode"], r, got, want[r], diff, describe(b, ri)))
+                       % (ri, b.case["rounds"][ri]["mode"], r, got, want_r, diff, describe(b, ri)))
                 return
 
 
